@@ -112,7 +112,10 @@ theorem compile_ls_Ff : ∀ (fnOk : Bool) (self : String) (e : Expr), Ff fnOk se
       simp only [hne, Bool.and_false, Bool.false_eq_true, if_false, g_pure_ok] at hc
       subst hc
       exact ⟨Nat.le_refl _, by lsin⟩
-    | _ => simp [Ff] at he
+    | _ =>
+      rw [compile_call_nonsym isFn c args gs (fun _ hh => by cases hh)] at hc
+      injection hc with hc; subst hc
+      exact ⟨Nat.le_refl _, by lsin⟩
   | fnOk, self, .fn ps rest body, he, isFn, c, gs, r, hc, hfn => by
     have hk := compile_keep_Ff he hc hfn
     rw [Ff] at he
